@@ -98,7 +98,11 @@ func build(c Cfg) *res.Service {
 		s.Handle(h.Pattern, kindOpts(h.Kinds)...)
 	}
 	if c.Explicit {
-		s.SetOwnedResources(c.Resources, c.Access)
+		if len(c.Resources)%2 == 1 {
+			s.SetReset(c.Resources, c.Access) // the deprecated alias
+		} else {
+			s.SetOwnedResources(c.Resources, c.Access)
+		}
 	}
 	if c.Queue != "<default>" {
 		s.SetQueueGroup(c.Queue)
@@ -604,6 +608,59 @@ func TestRealNATS(t *testing.T) {
 		_ = s.Shutdown()
 		<-exited
 		ev.Case(true, evid.Hash("realnats", c.String()), "realnats-config")
+	}
+}
+
+// TestRealNATSListenAndServe: the ListenAndServe entry point (own connection): serves,
+// answers, returns after Shutdown, and can be started again.
+func TestRealNATSListenAndServe(t *testing.T) {
+	srv, err := natsrv.Start()
+	if err != nil {
+		t.Fatalf("VERIF-INCONCLUSIVE: %v", err)
+	}
+	defer srv.Stop()
+	client, err := srv.Connect()
+	if err != nil {
+		t.Fatalf("VERIF-INCONCLUSIVE: %v", err)
+	}
+	defer client.Close()
+	c := Cfg{Name: "svc", Kinds: []string{"get", "access"}, Queue: "<default>"}
+	s := build(c)
+	for cycle := 0; cycle < 2; cycle++ {
+		started := make(chan struct{})
+		s.SetOnServe(func(*res.Service) { close(started) })
+		exited := make(chan error, 1)
+		go func() { exited <- s.ListenAndServe(srv.URL) }()
+		select {
+		case <-started:
+		case err := <-exited:
+			evid.Violation(t, prop, "listenandserve", fmt.Sprintf("cycle %d: ListenAndServe returned %v instead of serving", cycle, err), c)
+			return
+		case <-time.After(20 * time.Second):
+			t.Fatalf("VERIF-INCONCLUSIVE: ListenAndServe did not start")
+		}
+		// the subscriptions are flushed by the time a request from another client arrives? make sure
+		time.Sleep(50 * time.Millisecond)
+		n := 0
+		for try := 0; try < 3 && n == 0; try++ {
+			if m, err := client.Request("get.svc.a", nil, 5*time.Second); err == nil && len(m.Data) > 0 {
+				n++
+			}
+		}
+		if n == 0 {
+			evid.Violation(t, prop, "listenandserve", fmt.Sprintf("cycle %d: a get request on an owned resource got no response after ListenAndServe reported serving", cycle), c)
+		}
+		_ = s.Shutdown()
+		select {
+		case err := <-exited:
+			if err != nil {
+				evid.Violation(t, prop, "listenandserve", fmt.Sprintf("cycle %d: ListenAndServe returned %v after Shutdown", cycle, err), c)
+			}
+		case <-time.After(20 * time.Second):
+			evid.Violation(t, prop, "listenandserve", fmt.Sprintf("cycle %d: ListenAndServe did not return after Shutdown", cycle), c)
+			return
+		}
+		ev.Case(true, evid.Hash("listenandserve", cycle), "listen-and-serve")
 	}
 }
 
